@@ -742,6 +742,57 @@ def gen_doc(rng, mode: str, max_modules=12) -> dict:
     return doc
 
 
+def _scale_num(v, k):
+    """a coordinate / area times `k`; the Python tag is kept when the product is still integral (`True` becomes a number)."""
+    if isinstance(v, bool):
+        v = int(v)
+    if not isinstance(v, (int, float)):
+        return v
+    r = v * k
+    if isinstance(v, int) and float(r) == int(r) and abs(r) < 2 ** 53:
+        return int(r)
+    return float(r)
+
+
+def scale_doc(doc, s: float):
+    """the same design in another UNIT: lengths (centres, rectangle coordinates and sizes) × s, areas × s²; aspect ratios
+    and net weights are unit-free."""
+    d = copy.deepcopy(doc)
+    mods = d.get("Modules") if isinstance(d, dict) else None
+    if not isinstance(mods, dict):
+        return d
+    for info in mods.values():
+        if not isinstance(info, dict):
+            continue
+        if "area" in info:
+            a = info["area"]
+            info["area"] = {k: _scale_num(v, s * s) for k, v in a.items()} if isinstance(a, dict) else _scale_num(a, s * s)
+        if isinstance(info.get("center"), list):
+            info["center"] = [_scale_num(v, s) for v in info["center"]]
+        r = info.get("rectangles")
+        if isinstance(r, list) and r:
+            if isinstance(r[0], list):
+                info["rectangles"] = [[_scale_num(v, s) for v in q[:4]] + list(q[4:]) if isinstance(q, list) else q for q in r]
+            else:
+                info["rectangles"] = [_scale_num(v, s) for v in r[:4]] + list(r[4:])
+    return d
+
+
+def maybe_rescale(rng, doc, eps, mode: str, p: float = 0.25):
+    """unit families: with probability `p` the design is re-expressed in a small unit (areas 1e-13 … 1e-9, coordinates
+    1e-7 … 1e-4: a chip written in metres) or in a large one (areas 1e6 … 1e9); an explicit tolerance is rescaled with it.
+    Powers of two on the exact stream.  Returns (doc, eps, family)."""
+    if rng.random() >= p:
+        return doc, eps, "unit:1"
+    small = rng.random() < 0.65
+    if mode == "Q":
+        s = 2.0 ** (-rng.choice([17, 18, 19, 20, 21, 22]) if small else rng.choice([10, 12, 14, 15]))
+    else:
+        s = rng.choice([1e-6, 2e-6, 5e-7, 1e-5, 3e-7]) if small else rng.choice([1e3, 5e3, 1e4, 3e4])
+    e = None if eps is None else (eps[0] * s, eps[1] * s * s)
+    return scale_doc(doc, s), e, "unit:small" if small else "unit:large"
+
+
 def gen_eps(rng, mode: str):
     if mode == "Q":
         return rng.choice([(0.0, 0.0), (2.0 ** -30, 2.0 ** -20), (2.0 ** -30, 2.0 ** -20), (0.125, 0.25)])
@@ -812,6 +863,36 @@ def _float_overlap(a, b):
     bx0, bx1, by0, by1 = b[0] - b[2] / 2, b[0] + b[2] / 2, b[1] - b[3] / 2, b[1] + b[3] / 2
     dx, dy = min(ax1, bx1) - max(ax0, bx0), min(ay1, by1) - max(ay0, by0)
     return dx * dy if dx > 0 and dy > 0 else 0.0
+
+
+def max_hard_overlap(doc) -> Fraction:
+    """largest exact pairwise overlap area among the rectangles of one hard, non-terminal module of a (otherwise
+    well-formed) document."""
+    best = Fraction(0)
+    for name, info in doc.get("Modules", {}).items():
+        if not isinstance(info, dict) or "area" in info or info.get("terminal") is True or "rectangles" not in info:
+            continue
+        rl = [[Fraction(v) for v in r[:4]] for r in _rect_list(info)]
+        for i in range(len(rl)):
+            for j in range(i + 1, len(rl)):
+                a, b = rl[i], rl[j]
+                dx = min(a[0] + a[2] / 2, b[0] + b[2] / 2) - max(a[0] - a[2] / 2, b[0] - b[2] / 2)
+                dy = min(a[1] + a[3] / 2, b[1] + b[3] / 2) - max(a[1] - a[3] / 2, b[1] - b[3] / 2)
+                if dx > 0 and dy > 0:
+                    best = max(best, dx * dy)
+    return best
+
+
+def overlap_above_tolerance(doc, eps) -> bool:
+    """is the hard-overlap defect of `doc` a defect under the AREA TOLERANCE IN FORCE (explicit, or — undefined — the one
+    the document proposes, derived on the spec side)?  The proposed area tolerance is sqrt(1e-12 × smallest dimension): it
+    does not scale with the unit, so in a design written in a small unit (metres) it exceeds whole rectangles and an
+    overlap is, by the reader's definition, none (known open finding C20-sticky-tolerance-nonrobust-design)."""
+    try:
+        tol = float(eps[1]) if eps is not None else (doc_default_eps(doc) or (0.0, 0.0))[1]
+        return max_hard_overlap(doc) >= Fraction(1.5) * Fraction(tol) and max_hard_overlap(doc) > 0
+    except Exception:
+        return True
 
 
 SLIVER_REJECT = [2, 1000]           # overlap / area tolerance: must be rejected
